@@ -15,7 +15,7 @@ from hypothesis import strategies as st
 from vlib import est, gen
 
 DISPLAY = ["plot_norm", "plot", "plot_other", "str"]
-EDIT = ["refill", "aug_mul", "aug_sub", "refill_list", "edit_call", "reorder"]
+EDIT = ["refill", "aug_mul", "aug_sub", "refill_list", "edit_call", "reorder", "late_refill", "late_refill_view", "retype"]
 ORDER_ROWS = ("pburg", "pyule", "pcovar", "pmodcovar", "pminvar")
 ACTIONS = DISPLAY + EDIT
 KINDS = ("noise", "tones", "ar")
@@ -37,6 +37,23 @@ def life_case(rows, max_n=48):
                 "sides": draw(st.sampled_from(["default", "default", "twosided", "centerdc"])),
                 "g": draw(st.sampled_from([2.0, -0.5, 3.0, 10.0])), "order2": draw(st.integers(2, 7))}
     return _case()
+
+
+def life_enum(rows):
+    """every (row, action, real/complex, layout) combination on fixed records: which combinations are visited does not
+    depend on the seed"""
+    def gen_(tier):
+        k = 0
+        for row in rows:
+            P = dict(est.GRID_PARAMS[row])
+            for action in ACTIONS:
+                for cplx in (False, True):
+                    for sides in ("default", "centerdc"):
+                        k += 1
+                        yield {"row": row, "x1": est.grid_x(40, cplx, 50 + k), "x2": est.grid_x(40, cplx, 500 + k), "p": P,
+                               "nfft": [None, 64, 65][k % 3], "sampling": [1.0, 1000.0][k % 2], "scale": bool(k % 4 == 0),
+                               "action": action, "sides": sides, "g": [2.0, -0.5, 10.0][k % 3], "order2": 3 + k % 4}
+    return gen_
 
 
 def _snapshot(row, p):
@@ -78,6 +95,28 @@ def body(ctx, case):
     buf = x1.copy()
     with warnings.catch_warnings():
         warnings.simplefilter("ignore")
+        if action in ("late_refill", "late_refill_view"):
+            # the estimate is computed lazily: the buffer the object was built from is refilled *before* the first read (a frame of
+            # a sliding window: a read-only view of writable memory).  The object was given the first record.
+            arg = buf
+            if action == "late_refill_view":
+                arg = buf[:]
+                arg.flags.writeable = False
+            p = est.build(row, arg, P, **kw)
+            buf[:] = x2
+            ctx.nontrivial(True)
+            tag = "%s(N=%d %s, %r, NFFT=%r)" % (row, N, "complex" if np.iscomplexobj(x1) else "real", P, nfft)
+            how = "the construction buffer%s refilled before the first read" % (" (handed over as a read-only view)" if action == "late_refill_view" else "")
+            held = np.asarray(p.data)
+            ctx.check(held.shape == x1.shape and np.array_equal(held, x1), "%s: %s changed the samples the object holds" % (tag, how), sig=dict(sig, what="data"))
+            got = _snapshot(row, p)
+            q = est.build(row, x1.copy(), P, **kw)
+            exp = _snapshot(row, q)
+            if est.degenerate(row, q) or not np.all(np.isfinite(exp["psd"])):
+                ctx.exclude("degenerate fit")
+                return
+            _same(ctx, row, got, exp, "%s with %s vs a fresh object on the record it was given" % (tag, how), sig, exact=False)
+            return
         p = est.build(row, buf, P, **kw)
         first = _snapshot(row, p)
         if est.degenerate(row, p) or not np.all(np.isfinite(first["psd"])):
@@ -123,6 +162,11 @@ def body(ctx, case):
             d[:4] = 0          # the caller edits the samples the object hands out, then asks for a new evaluation
             p()
             now, how = np.concatenate((np.zeros(4, dtype=x1.dtype), x1[4:])), "p.data[:4] = 0; p()"
+        elif action == "retype":
+            # the next record is of the other kind (a real record replaced by complex samples, or the reverse)
+            now = (x2 + 1j * x2[::-1]).astype(complex) if not np.iscomplexobj(x1) else np.ascontiguousarray(x2.real)
+            p.data = now
+            how = "p.data = <a %s record>" % ("complex" if np.iscomplexobj(now) else "real")
         elif action == "refill":
             buf[:] = x2
             p.data = buf
